@@ -22,7 +22,8 @@ TRUSTED = [
     "the two comparisons of calc_omen_keyspace the model is parameterised by (IP guard, length skip) are read off the "
     "TRANSLATION of calc_omen_keyspace on every run, the default bounds off its def line (harness/consts/omen_level.py, "
     "fail closed), and pinned by side-condition lemmas in Props/C18.v; the formula written to pcfg_omen_prob.txt is "
-    "checked by ast up to the naming of intermediate values; the shape of the translated functions themselves is no "
+    "tied by the translation of save_omen_rules_to_disk (harness/translate_omen_trainer.py -> gen/OmenTrainerOut_gen.v, equal to "
+    "OmenTrainer.save_rules whose probability loop is proved to be omen_prob: C18_source_prob_loop_is_model); the shape of the translated functions themselves is no "
     "longer string-matched: the translation + equality proofs carry that tie",
     "harness/translate_omen_level.py: fail-closed ast translator of _rec_calc_keyspace and calc_omen_keyspace into "
     "gen/OmenKeyspace_gen.v (accepted subset and the representation of Python values in its header: ints as Z, the trainer "
@@ -244,6 +245,8 @@ def run(ctx):
              4: "calc_omen_keyspace, small cut-off, cold cache", 5: "pcfg_omen_prob.txt"}
     import omen_gen_tie
     corr = [omen_gen_tie.status("omen-keyspace:translator-tie", "gen/OmenKeyspace_gen.v", "theories/OmenKeyspaceGenProofs.v")]
+    import omen_trainer_tie
+    corr += omen_trainer_tie.obligations("C18")
     if missing_consts:
         corr.append(("omen-keyspace:constants", False, "constants missing from gen/Consts_gen.v (extractor plugin failed): %s; "
                      "no correspondence case could be written" % sorted(missing_consts)))
